@@ -16,6 +16,7 @@ FIX = [
     ("E308****", "Generic fan %d fault byte %02X", "3, 4", "fan.cpp", 20),
     ("E30C77**", "Reported raw fan fault %c", "4", "fan.cpp", 30),
     ("E3******", "Any E3 error", "", "fan.cpp", 40),
+    ("E2**26**", "Status %02X unit %d", "2, 4", "st.cpp", 45),
     ("F20C****", "F pattern %d %d", "3, 4", "f.cpp", 50),
     ("F3087704", "Debug marker A", "", "f.cpp", 55),
     ("0200****", "PEROM level = %c%c", "3, 4", "states.cpp", 60),
@@ -66,12 +67,13 @@ PATS = shipped_patterns()          # at import time: not traced
 BATCH = 40
 MATCH_CASES = ["pats:%d" % i for i in range(0, max(len(PATS), 1), BATCH)] if PATS else []
 HARNESSES = [
-    {"fn": "h_frame", "cases": ["e1:t0", "e1:t3", "e2:t0", "e2:t7", "e0:t5", "zero", "ffff"], "quick_cases": ["e1:t3", "e2:t0", "zero", "ffff"],
+    {"fn": "h_frame", "cases": ["e1:t0", "e1:t3", "e2:t0", "e2:t7", "e0:t5", "zero", "ffff", "pair:ru", "pair:ur"],
+     "quick_cases": ["e1:t3", "e2:t0", "zero", "ffff", "pair:ru"],
      "timeout": {"quick": 120, "thorough": 400}},
     {"fn": "h_timestamp", "cases": ["h%d" % h for h in range(19)] + ["ffff"], "quick_cases": ["h0", "h9", "h10", "h18", "ffff"],
      "timeout": {"quick": 90, "thorough": 300}},
     {"fn": "h_first_match", "cases": ["hi:%X" % n for n in (0x0, 0x1, 0xE, 0xF)] + ["stub"], "quick_cases": ["hi:0", "hi:E", "hi:F", "stub"], "timeout": {"quick": 120, "thorough": 400}},
-    {"fn": "h_message", "cases": ["E308", "0200", "10m", "1001", "F20C", "quote"], "quick_cases": ["E308", "1001", "0200"],
+    {"fn": "h_message", "cases": ["E308", "0200", "10m", "1001", "F20C", "quote", "E226"], "quick_cases": ["E308", "1001", "0200", "E226"],
      "timeout": {"quick": 90, "thorough": 300}},
     {"fn": "h_matches", "cases": MATCH_CASES, "quick_cases": MATCH_CASES[:2] + MATCH_CASES[-1:], "timeout": {"quick": 120, "thorough": 600}},
 ]
@@ -138,6 +140,30 @@ def h_frame() -> bool:
     """
     post: _
     """
+    if CASE.startswith("pair"):
+        # both forms of one error PTE (reported flag set / clear) in one ILOG: each line has its own first match
+        lo = sym_bytes("lo", 2)
+        rep, unrep = [0xE3, 0x0C, lo[0], lo[1]], [0xE3, 0x08, lo[0], lo[1]]
+        order = [rep, unrep] if CASE.endswith("ru") else [unrep, rep]
+        data = mkbytes(b"\x00\x01\x00\x02", order[0], b"\x00\x02\x00\x03", order[1])
+        try:
+            lines = run_fixture(data)
+        except Exception as e:
+            return verdict(False, obs={"exception": repr(e)})
+        conds = [len(lines) == 4]
+        if len(lines) == 4:
+            for ln, b in zip(lines[2:], order):
+                idx = None
+                for k2, (pat, msg, params, f, l2) in enumerate(FIX):
+                    if spec_matches(pat, b):
+                        idx = k2
+                        break
+                suffix = " - PEL entry created" if bool(is_reported_error(b)) else ""
+                desc = ln[23:]
+                conds.append(desc.endswith(suffix) if suffix else not desc.endswith(" - PEL entry created"))
+                conds.append(doc_eq(desc[:len(desc) - len(suffix)] if suffix else desc,
+                                    expected_message(idx, b) if idx is not None else "Undefined"))
+        return verdict(sym_all(conds), obs={"lines": lines})
     if CASE in ("zero", "ffff"):
         # an entry is skipped only if ALL 8 bytes are zero
         ts = sym_int("ts", 0, 0xFFFF) if CASE == "zero" else 0xFFFF
@@ -191,7 +217,8 @@ def h_first_match() -> bool:
 
             def matches(self, pte):
                 return res[self.i]
-        t = ilog.PTETable.__new__(ilog.PTETable)
+        with patched(ilog, open=lambda p, *a, **k: _F(fix_header())):
+            t = ilog.PTETable("/fixtures/pte.h")
         t.entries = [_E(i) for i in range(6)]
         got = t.get_entry(0x12345678)
         want = None
@@ -267,11 +294,14 @@ def h_message() -> bool:
     """
     post: _
     """
-    base = {"E308": 0xE3080000, "0200": 0x02000000, "10m": 0x10000000, "1001": 0x10010000, "F20C": 0xF20C0000, "quote": 0x01040000}[CASE]
+    base = {"E308": 0xE3080000, "0200": 0x02000000, "10m": 0x10000000, "1001": 0x10010000, "F20C": 0xF20C0000, "quote": 0x01040000,
+            "E226": 0xE2002600}[CASE]
     lo = sym_bytes("lo", 2)
     b = [base >> 24, (base >> 16) & 0xFF, lo[0], lo[1]]
     if CASE == "10m":
         b = [0x10, lo[0], 0x00, lo[1]]
+    if CASE == "E226":
+        b = [0xE2, lo[0], 0x26, lo[1]]           # parameter byte 2 carries the reported flag
     if CASE == "quote":
         b = [0x01, 0x04, 0x00, 0x00]
     if CASE == "0200":
